@@ -38,7 +38,7 @@ type topo struct {
 var families = []string{"cname", "dname", "nscycle", "deep", "lame", "hugens", "manysig", "updown"}
 
 // variants per family (see buildTopo)
-var familyVariants = map[string]int{"cname": 2, "dname": 2, "nscycle": 2, "deep": 2, "lame": 5, "hugens": 3, "manysig": 3, "updown": 2}
+var familyVariants = map[string]int{"cname": 2, "dname": 2, "nscycle": 2, "deep": 2, "lame": 6, "hugens": 3, "manysig": 3, "updown": 2}
 
 func buildTopo(family string, n, variant int, signed bool) *topo {
 	w := l3.NewWorld(signed)
@@ -169,6 +169,41 @@ func buildTopo(family string, n, variant int, signed bool) *topo {
 			t.Honest = false
 		}
 	case "lame":
+		if variant == 5 {
+			// half-lame delegation: n servers answer SERVFAIL with empty sections, one more is healthy;
+			// every nameserver name has its own address. An ideal resolver gets the answer from the
+			// healthy one; a budget that runs out after a lame one was asked has learnt nothing about the zone.
+			if n < 1 {
+				n = 1
+			}
+			if n > 5 {
+				n = 5
+			}
+			hosts := make([]string, n+1)
+			for i := range hosts {
+				hosts[i] = fmt.Sprintf("ns%d.half.test.", i+1)
+			}
+			z := w.AddZone("half.test.", l3.ZoneOpts{NSHosts: hosts})
+			z.Add("www.half.test. 300 IN A 192.0.2.85", "other.half.test. 300 IN A 192.0.2.86")
+			d := w.Delegation("half.test.")
+			for i := 1; i <= n; i++ {
+				srv := w.NewServer(fmt.Sprintf("half-lame-%d", i))
+				srv.Attach(z)
+				srv.SetBehaviour(l3.Behaviour{Rcode: func(q dns.Question) int { return dns.RcodeServerFailure }})
+				host := hosts[i]
+				for _, g := range d.Glue {
+					if a, ok := g.(*dns.A); ok && strings.EqualFold(a.Hdr.Name, host) {
+						a.A = srv.IP
+					}
+				}
+				z.Remove(host, dns.TypeA)
+				z.Add(fmt.Sprintf("%s 300 IN A %s", host, srv.IP))
+			}
+			t.QName = "www.half.test."
+			t.Answerable = true
+			t.Honest = false
+			break
+		}
 		z := w.AddZone("lame.test.", l3.ZoneOpts{NSHosts: nsHosts("lame.test.", n)})
 		z.Add("www.lame.test. 300 IN A 192.0.2.81")
 		t.QName = "www.lame.test."
